@@ -186,4 +186,29 @@ theorem rangeIdx_spec (D : Derive) (t : Target) (h : D.WF) (ht : t.WF) (a b : In
     subst e1; subst e2
     rfl
 
+/-- on an ascending list, the filter of `[a, b]` is the filter of `[a, m]` followed by that of `[m+1, b]` -/
+theorem filter_split (a m b : Int) (ha : a ≤ m + 1) (hb : m ≤ b) : ∀ (l : List Int), l.Pairwise (· < ·) →
+    l.filter (fun v => decide (a ≤ v) && decide (v ≤ b))
+      = l.filter (fun v => decide (a ≤ v) && decide (v ≤ m)) ++ l.filter (fun v => decide (m + 1 ≤ v) && decide (v ≤ b))
+  | [], _ => rfl
+  | x :: xs, hp => by
+    rw [List.pairwise_cons] at hp
+    have ih := filter_split a m b ha hb xs hp.2
+    by_cases h1 : x ≤ m
+    · by_cases h0 : a ≤ x
+      · have : ¬ (m + 1 ≤ x) := by omega
+        have hxb : x ≤ b := by omega
+        simp [h0, h1, this, hxb, ih]
+      · have : ¬ (m + 1 ≤ x) := by omega
+        simp [h0, this, ih]
+    · have hnil : xs.filter (fun v => decide (a ≤ v) && decide (v ≤ m)) = [] := by
+        rw [List.filter_eq_nil_iff]; intro y hy
+        have := hp.1 y hy
+        simp only [Bool.and_eq_true, decide_eq_true_eq]; omega
+      have h0 : a ≤ x := by omega
+      have h2 : m + 1 ≤ x := by omega
+      by_cases h3 : x ≤ b
+      · simp [h0, h1, h2, h3, hnil, ih]
+      · simp [h0, h1, h2, h3, hnil, ih]
+
 end ET
